@@ -2,7 +2,7 @@ SPECIFICATION LSpec
 CONSTANTS
   Keys = {1,2}
   Vals = {0,1,2}
-  Cls <- ClsId
+  Cls <- ClsF
   WithCmp = TRUE
 VIEW View
 ACTION_CONSTRAINT Dump
